@@ -3,7 +3,10 @@ from bounded import gen
 from checks.e2e_common import run_e2e_property
 
 EXPLANATION = (
-    "The substitution semantics is S3's definition of a call. B tier (bounded): programs with int/Signal/Entity "
+    "The substitution semantics is S3's definition of a call. P tier (unbounded): ExpressionLowerer._resolve_constant_symbol "
+    "— the one place where a name in an inlined body becomes a compile-time integer — resolves by the innermost binding "
+    "(parameter, then caller variable / iterator, then global) and never resolves a Signal-bound name to an outer integer "
+    "(lexical scoping is what makes inlining equal substitution). B tier (bounded): programs with int/Signal/Entity "
     "parameters, int<->Signal coercion, locals shadowing outer names, nested calls, calls in loops, parameters shadowing "
     "loop iterators and entity-returning functions are compiled by the real pipeline and every output / entity "
     "condition / entity position is compared with S3 (body substituted, parameters bound to the arguments) for all "
@@ -15,4 +18,4 @@ def run(tier):
     progs = gen.c15_scope(tier)
     return run_e2e_property("C15", tier, EXPLANATION, "DESIGN §4 C15",
                             [("e2e-calls", progs, "function-call shapes (coercion, shadowing, nesting, loops, entity params/returns)")],
-                            contract_modules=["contracts.c11"])
+                            contract_modules=["contracts.c11", "contracts.c15"])
